@@ -222,7 +222,7 @@ impl FrameHeader {
         let encoded_sample_rate = r.parse_using(non_subset_rate)?;
         let channel_assignment = r.parse()?;
         let bits_per_sample = r.parse_using(non_subset_bps)?;
-        r.skip(1)?;
+        r.read_const::<1, 0, _>(Error::InvalidReservedBit)?;
         let frame_number = r.parse()?;
 
         let frame_header = Self {
